@@ -135,11 +135,12 @@ def build_project(strings, root, dumpdir):
             L.append("executable('e_%s', 'main.c', g_%s.process('g.in'))" % (name, name))
             plan.append(('gen', name, ch, None, {}))
             # tests
-            for proto in ('exitcode', 'tap'):
-                name = 't_%s_%s_%d' % (proto, fam, ci)
+            for proto in ('exitcode', 'tap', 'exitcode-workdir'):
+                name = 't_%s_%s_%d' % (proto.replace('-', '_'), fam, ci)
                 envd = ', '.join("'TE%d': %s" % (i, lit(s)) for i, s in enumerate(ch[:40]))
                 targs = "'--dump=%s', %s%s, %s" % (dp(name), "'--tap', " if proto == 'tap' else '', ', '.join("'--env=TE%d'" % i for i in range(min(40, len(ch)))), args)
-                L.append("test('%s', dump, args: [%s], env: {%s}, protocol: '%s')" % (name, targs, envd, proto))
+                wd = ", workdir: meson.current_source_dir() / 'w d'" if proto.endswith('workdir') else ''
+                L.append("test('%s', dump, args: [%s], env: {%s}, protocol: '%s'%s)" % (name, targs, envd, proto.split('-')[0], wd))
                 plan.append(('test', name, ch, dp(name), {'proto': proto, 'nenv': min(40, len(ch))}))
     # env values only (arguments stay harmless, so only the env value decides how the command is wrapped)
     for ci, ch in enumerate(chunks(plain + nl, 1)):
@@ -183,7 +184,7 @@ def build_project(strings, root, dumpdir):
     L.insert(1, "add_global_arguments(%s, language: 'c')" % ', '.join(["'-DGSENT_BEGIN'"] + [lit('--gverif%d=%s' % (i, s)) for i, s in enumerate(pa)] + ["'-DGSENT_END'"]))
     L.insert(1, "add_project_link_arguments(%s, language: 'c')" % ', '.join(["'-Wl,--psent-begin'"] + [lit('--plverif%d=%s' % (i, s)) for i, s in enumerate(pa)] + ["'-Wl,--psent-end'"]))
     plan.append(('projargs', 'projargs', pa, None, {}))
-    files = {'meson.build': '\n'.join(L) + '\n', 'main.c': 'int main(void) { return 0; }\n', 'in.txt': 'feed\n', 'g.in': 'x\n'}
+    files = {'meson.build': '\n'.join(L) + '\n', 'main.c': 'int main(void) { return 0; }\n', 'in.txt': 'feed\n', 'g.in': 'x\n', 'w d/keep': ''}
     return files, plan
 
 
